@@ -163,12 +163,18 @@ def paint(case):
     return m
 
 
-def make_engine():
+def make_engine(case=None):
     from pero_ocr.layout_engines.cnn_layout_engine import LayoutEngine
     eng = object.__new__(LayoutEngine)
     eng.line_end_weight = 1.0
     eng.vertical_line_connection_range = 5
     eng.smooth_line_predictions = True
+    if case is not None:
+        # documented post-processing options away from their defaults (a function of the case): smoothing off, other
+        # vertical connection ranges; the Gaussian ridges of the generator are decoded alike under all of them
+        v = (case["H"] + 3 * case["W"] + len(case["ridges"])) % 6
+        eng.smooth_line_predictions = v not in (1, 4)
+        eng.vertical_line_connection_range = (5, 5, 3, 7, 4, 5)[v]
     eng.line_detection_threshold = 0.2
     eng.adaptive_downsample = False
     eng.paragraph_line_threshold = 0.3
@@ -236,7 +242,8 @@ def match_lines(ctx, case, b_list, h_list, t_list, desc, extra_tol=0.0, transfor
 
 
 def body_parse(ctx, case):
-    eng = make_engine()
+    eng = make_engine(case)
+    ctx.event("smoothing:%s connection_range:%d" % (eng.smooth_line_predictions, eng.vertical_line_connection_range))
     m = paint(case)
     desc = lambda: "case=%r" % (case,)
     with contextlib.redirect_stdout(io.StringIO()):
@@ -269,7 +276,7 @@ class StubParseNet:
 
 
 def body_detect(ctx, case):
-    eng = make_engine()
+    eng = make_engine(case)
     ds, rot = case["ds"], case["rot"]
     eng.parsenet = StubParseNet(ds)
     m = paint(case)
@@ -349,7 +356,7 @@ def body_detect(ctx, case):
     _random.seed(rng_seed)
     with contextlib.redirect_stdout(io.StringIO()):
         second = ctx.must("detect_raises", eng.detect, orig, rot)
-    fresh = make_engine()
+    fresh = make_engine(case)
     fresh.parsenet = StubParseNet(ds)
     np.random.seed(rng_seed)
     _random.seed(rng_seed)
